@@ -145,8 +145,11 @@ CHECKS = {
         text="TLC checks JacIsDerivative/OmittedIsZero with the symbolic derivative operator D for every network in the bound; emitted "
              "Jacobian terms are compared per reaction/modifier with the specification's delta, and in a second 'observe' pass TLC "
              "evaluates jac = D(rhs) and omitted = 0 on the EMITTED right-hand side alone."),
-    "C03": dict(level="model_checking", design_ref="DESIGN.md §4 C03, §11", technique=_ODE_TECH, note=_ODE_NOTE,
-        text="TLC checks the CSR construction (well-formed, cells = touched cells) for every network in the bound; for every rendered "
+    "C03": dict(level="model_checking", design_ref="DESIGN.md §4 C03, §11, §12", technique=_ODE_TECH +
+                "; TLA+ spec Lifecycle.tla (Init/Reset/Solve/Finalize of the generated solver class) model-checked, real life-cycle histories of the "
+                "compiled class (stand-in decodes the Jacobian by the layout the matrix was declared with) validated by Trace_Lifecycle.tla", note=_ODE_NOTE,
+        text="The matrix as the linear solver reads it, after every legal history of Init/Reset/Solve/Finalize up to a length bound, must have the "
+             "layout the generated Jacobian routine fills and hold the dense variant's cells and values.  TLC checks the CSR construction (well-formed, cells = touched cells) for every network in the bound; for every rendered "
              "network TLC evaluates CsrWellFormed on the emitted rowptrs/colvals, equality of the CSR cells with the assigned cells, "
              "macro sizes, every subscript against the declared sizes (incl. rate assignments) and the pattern file; the cell sets of "
              "the four back-ends must agree."),
@@ -158,10 +161,16 @@ CHECKS = {
     "C14": dict(
         level="model_checking", design_ref="DESIGN.md §4 C14, §11",
         technique="TLA+ spec NetworkEdit.tla model-checked with TLC over all bounded edit histories; TLC-simulated histories replayed on real "
-                  "Network objects; recorded API histories (random, targeted, `naunet extend`) validated by Trace_NetworkEdit.tla",
+                  "Network objects; recorded API histories (random, targeted, `naunet extend`) validated by Trace_NetworkEdit.tla; TLA+ spec "
+                  "ExtendCmd.tla (the command's pipeline as a phase machine over NetworkEdit) model-checked for every input file and option "
+                  "combination in the bound, real command runs (input file written by an independent encoder, output file read back by an "
+                  "independent reader) validated by Trace_ExtendCmd.tla",
         text="TLC checks CacheConsistent / AllowedRespected / SkippedDisallowed / NothingLost after every action of every history of the "
              "bounded universe; the recorder wraps the public Network entry points and every real call (spec-driven, random long histories, "
-             "CLI runs) must be the step the specification takes, with all invariants evaluated after each step.",
+             "CLI runs) must be the step the specification takes, with all invariants evaluated after each step.  For the command, TLC checks "
+             "PipelineResult (the edited list is exactly the input reactions that fit the keep-list, mention no removed species and do not "
+             "repeat an earlier survivor) and every real run must take the phase the options dictate with the arguments they dictate, and "
+             "write exactly the final list.",
         note="species classes are those of the real Species.__eq__; reaction objects are not shared between list positions"),
     "C15": dict(
         level="model_checking", design_ref="DESIGN.md §4 C15, §11",
